@@ -260,6 +260,37 @@ def mkChunks (cfg : SgrCfg) : List (Spec × List Char) → Except Err (List Chun
       | .error e => .error e
       | .ok cs => .ok (c :: cs)
 
+/-! ## routes from a formatter's result to a `str`; the other constructor -/
+
+/-- how the chunk `x = fmt(text)` becomes a string: `str(x)` and `'%s' % x` print the chunk itself
+(`_CHTextChunk.__str__`: prefix and suffix also around an empty text); `f"{x}"`, `format(x, spec)`,
+`x + s`, `s + x` go through `CHText(x)`, whose constructor drops a chunk with empty text -/
+inductive Route where
+  | direct
+  | viaText
+  deriving Repr, DecidableEq
+
+def routeBody (c : Chunk) : Route → List Char
+  | .direct => render [c]
+  | .viaText => if c.text = [] then [] else render [c]
+
+/-- the resulting string: `left`/`right` are what the route writes around the chunk (the fill
+characters of a format spec, the `str` that was added) - always **outside** the chunk's sequences -/
+def routeStr (left right : List Char) (c : Chunk) (rt : Route) : List Char :=
+  left ++ routeBody c rt ++ right
+
+/-- `CHText._merge_chunks` (`CHText.make`): neighbours with equal prefix are merged
+(`add_chunks_same_type`: prefix and suffix of the first), chunks with empty text are kept -/
+def mergeGo : Chunk → List Chunk → List Chunk
+  | cur, [] => [cur]
+  | cur, c :: cs =>
+    if cur.pre = c.pre then mergeGo { cur with text := cur.text ++ c.text } cs
+    else cur :: mergeGo c cs
+
+def mergeChunks : List Chunk → List Chunk
+  | [] => []
+  | c :: cs => mergeGo c cs
+
 /-! ## strip_colors -/
 
 /-- a regular-expression character class: literal characters and inclusive code point ranges
